@@ -153,7 +153,7 @@ class Engine:
                 return self.wrap_spec_lookup(r)
             if name in self.contracts.lemmas:
                 return Const("lemma", self.contracts.lemmas[name])
-            if name in ("implies", "table_key"):
+            if name in ("implies", "table_key", "same"):
                 return Const("pyfn", name)
             if name in ("True", "False", "None"):
                 return S.lift({"True": True, "False": False, "None": None}[name])
@@ -516,11 +516,13 @@ class Engine:
             for k, g in enumerate(conj):
                 o = Obligation(f"{full}[{k}]", st.path, g, kind, getattr(node, "lineno", None))
                 o.fuel = fr.contract.fuel if fr.contract is not None else None
+                o.no_unfold = (set(getattr(fr.contract, "opaque_here", None) or ()) | LAZY_SPECS) - set(getattr(fr.contract, "unfold_here", None) or ())
                 o.state = snap
                 fr.obligations.append(o)
             return o
         o = Obligation(full, st.path, goal, kind, getattr(node, "lineno", None))
         o.fuel = fr.contract.fuel if fr.contract is not None else None
+        o.no_unfold = (set(getattr(fr.contract, "opaque_here", None) or ()) | LAZY_SPECS) - set(getattr(fr.contract, "unfold_here", None) or ())
         o.state = snap
         fr.obligations.append(o)
         return o
@@ -613,7 +615,7 @@ class Engine:
         *elements* of containers -- user data cannot contain them and the code never stores one (checked:
         an obligation whose formulas build a container around a sentinel gets no such fact).  So every
         element access `xs[i]` / `d[k]` yields a non-sentinel."""
-        if not self._sentinels:
+        if os.environ.get("PYVC_NO_DATA_FACTS"):
             return []
         out = []
         seen = set() if seen is None else seen
@@ -643,6 +645,21 @@ class Engine:
         if out:
             self.assumptions_used.add("module sentinel objects (X = object()) are never elements of containers")
         return out
+
+    def _mentions_sentinel_test(self, terms):
+        stack = list(terms)
+        seen = set()
+        while stack:
+            x = stack.pop()
+            if x.get_id() in seen:
+                continue
+            seen.add(x.get_id())
+            if z3.is_app(x):
+                d = x.decl()
+                if d.eq(Py.cls) or d.eq(Py.obj):
+                    return True
+                stack.extend(x.children())
+        return False
 
     def _mentions_sentinel(self, t):
         stack = [t]
@@ -808,7 +825,13 @@ class Engine:
         base = list(ob.hyps) + [z3.Not(ob.goal)]
         base += self.length_bounds(base)
         data_seen = set()
-        base += self.data_facts(base, data_seen)
+        # the sentinel facts matter only where something tells sentinels from data (`x is NoValue`, is_data(x))
+        need_data = self._mentions_sentinel_test(base)
+        if need_data:
+            base += self.data_facts(base, data_seen)
+        # spec functions this contract asks not to unfold (irrelevant to its argument; keeps queries small --
+        # only ever makes an obligation harder to discharge, never easier)
+        no_unfold = getattr(ob, "no_unfold", None) or set()
         seen_ids = set()
         seen_apps = set()
         defs = []
@@ -888,12 +911,13 @@ class Engine:
                 seen_apps.add(aid)
                 for ax in self.specs.axioms.get(sf.decl.name(), ()):
                     new.append(self.instantiate_axiom(ax, app))
-                if sf.opaque:
+                if sf.opaque or sf.name in no_unfold:
                     continue
                 new.append(self.unfold(sf, app, decide))
             if not new:
                 break
-            new += self.data_facts(new, data_seen)
+            if need_data:
+                new += self.data_facts(new, data_seen)
             defs.extend(new)
             for d in new:
                 ctx.add(d)
@@ -905,6 +929,88 @@ class Engine:
         ob.reason = reason
         ob.defs = defs
         return verdict
+
+
+def _spec_reach(self, names):
+    """spec-function names reachable from `names` through the bodies of the spec definitions"""
+    if not hasattr(self, "_callgraph"):
+        g = {}
+        allnames = {}
+        for decl_name, sf in self.specs.by_decl.items():
+            allnames.setdefault(sf.name, []).append(sf)
+        for decl_name, sf in self.specs.by_decl.items():
+            refs = set()
+            for n in ast.walk(sf.node):
+                if isinstance(n, ast.Name) and n.id in allnames:
+                    refs.add(n.id)
+                elif isinstance(n, ast.Attribute) and n.attr in allnames:
+                    refs.add(n.attr)
+            g.setdefault(sf.name, set()).update(refs)
+        self._callgraph = g
+    out = set()
+    stack = list(names)
+    while stack:
+        n = stack.pop()
+        if n in out:
+            continue
+        out.add(n)
+        stack.extend(self._callgraph.get(n, ()))
+    return out
+
+
+def _cone_phase_impl(self, ob, base, no_unfold, decide, fuel, timeout_ms, ctx):
+    """relevance-filtered unfolding: only applications (in hypotheses or goal) of spec functions
+    that the goal's own spec functions can reach through their definitions"""
+    goal_apps = self.specs.apps_in([ob.goal], set())
+    if not goal_apps:
+        return False
+    reach = self._spec_reach({sf.name for sf, _ in goal_apps})
+    seen_ids = set()
+    seen_apps = set()
+    data_seen = set()
+    cdefs = []
+    frontier = self.specs.apps_in(base, seen_ids)
+    if all(sf.name in reach for sf, _ in frontier):
+        return False        # nothing to filter: the full procedure does the same work
+    budgets = [2500, 5000, 10000, 10000]
+    for d in range(1, fuel + 1):
+        new = []
+        for sf, app in frontier:
+            aid = app.get_id()
+            if aid in seen_apps:
+                continue
+            seen_apps.add(aid)
+            if sf.name not in reach:
+                continue
+            for ax in self.specs.axioms.get(sf.decl.name(), ()):
+                new.append(self.instantiate_axiom(ax, app))
+            if sf.opaque or sf.name in no_unfold:
+                continue
+            new.append(self.unfold(sf, app, decide))
+        if not new:
+            return False
+        new += self.data_facts(new, data_seen)
+        cdefs.extend(new)
+        frontier = self.specs.apps_in(new, seen_ids)
+        s = z3.Solver()
+        s.set("timeout", min(timeout_ms, budgets[min(d - 1, 3)]))
+        for f in base:
+            s.add(f)
+        for f in cdefs:
+            s.add(f)
+        if s.check() == z3.unsat:
+            ob.defs = cdefs
+            return True
+    return False
+
+
+Engine._spec_reach = _spec_reach
+Engine._cone_phase = _cone_phase_impl
+
+
+# spec functions that are only unfolded where a contract asks for it (`unfold_here`): flat side
+# conditions that almost no argument looks into
+LAZY_SPECS = {"NS_CLEAN"}
 
 
 def _conjuncts(g):
